@@ -42,7 +42,9 @@ def concretise(case, rot):
     bad = BAD[rot % len(BAD)]
     code = BAD_CODE[rot % len(BAD)]
     dly = DELAYS[rot % len(DELAYS)]
-    hmap = {"a": a, "b": b, "bad": bad, "na": "n/a", "off": "(Def/Aaa, Offset)", "dly": dly}
+    hmap = {"a": a, "b": b, "bad": bad, "na": "n/a", "off": "(Def/Aaa, Offset)", "dly": dly,
+            "on": ["(Def/Aaa, Onset)", "(Def/aaa, Onset, (Ellipse))"][rot % 2],
+            "doff": ["(Delay/15 s, Def/Aaa, Offset)", "(Delay/15000 ms, Offset, Def/AAA)"][rot % 2]}
     sidecar = {"cat": {"HED": {"ka": a, "kb": b, "kbad": bad}}}
     cmap = {"a": "ka", "b": "kb", "bad": "kbad", "na": "n/a", "unk": "kzz"}
     rows = case["rows"]
